@@ -80,3 +80,38 @@ Definition ub_corner_ok (m : pomdp) (hist : list ubstate) (s a : nat) (v : Q) (k
 Definition supersol_okb (m : pomdp) (q : mat) (e : Q) : bool :=
   forallb (fun s => forallb (fun a => Qle_bool (qget (fib_op m q) s a) (qget q s a + e)) (seq 0 (nA (pm m))))
           (seq 0 (nS (pm m))).
+
+(* ---- upper-bound event trace (states most recent first).  A point event adds (b, v) certified per
+   action against a surface of the history (SARSOP keeps stale per-action values, so the surface "the
+   code used" may be an older one); a corner event overwrites ubQ(s,a) := v; a prune event keeps a
+   sub-list of the points.  d = slack (0 in the theorems). *)
+Definition mset (m : pomdp) (q : mat) (s a : nat) (v : Q) : mat :=
+  mtab (nS (pm m)) (nA (pm m)) (fun s' a' => if ((s' =? s) && (a' =? a))%nat%bool then v else qget q s' a').
+
+Inductive ub_event : Type :=
+| UbPoint (b : vec) (v : Q) (ks : list nat)
+| UbCorner (s a : nat) (v : Q) (k : nat)
+| UbPrune (keep : list nat).
+
+Definition ub_step (m : pomdp) (d : Q) (hist : list ubstate) (e : ub_event) : option (list ubstate) :=
+  match hist with
+  | [] => None
+  | cur :: _ =>
+    match e with
+    | UbPoint b v ks =>
+      if (nonnegb b && (length b =? nS (pm m))%nat && ub_point_ok m hist b v ks d)%bool
+      then Some ((fst cur, snd cur ++ [(b, v)]) :: hist) else None
+    | UbCorner s a v k =>
+      if ub_corner_ok m hist s a v k d
+      then Some ((mset m (fst cur) s a v, snd cur) :: hist) else None
+    | UbPrune keep =>
+      if forallb (fun i => (i <? length (snd cur))%nat) keep
+      then Some ((fst cur, map (fun i => nth i (snd cur) ([], 0)) keep) :: hist) else None
+    end
+  end.
+
+Fixpoint ub_run (m : pomdp) (d : Q) (hist : list ubstate) (evs : list ub_event) : option (list ubstate) :=
+  match evs with
+  | [] => Some hist
+  | e :: rest => match ub_step m d hist e with Some h' => ub_run m d h' rest | None => None end
+  end.
